@@ -18,7 +18,7 @@ if [ "$ID" = "C13" ]; then
   # uninstrumented -race build of the free-running driver
   R="$S/plain"; mkdir -p "$R"
   "$VERIF/bin/vinstr" -plain -src "$REPO" -dst "$R" || { echo "BUILD-ERROR plain copy failed"; exit 2; }
-  mkdir -p "$R/zverif/cmd" && cp -r "$VERIF/engine/zverif/cmd/c13run" "$R/zverif/cmd/"
+  mkdir -p "$R/zverif/cmd" && cp -r "${VERIF_ENGINE:-$VERIF/engine/zverif}/cmd/c13run" "$R/zverif/cmd/"
   (cd "$R" && CGO_ENABLED=1 go build -race -o "$S/c13run" ./zverif/cmd/c13run) 2> "$S/build13.log" || { echo "BUILD-ERROR (race build failed)"; head -30 "$S/build13.log"; exit 2; }
   EXTRA=(-x "racebin=$S/c13run")
 fi
